@@ -527,6 +527,24 @@ class World:
         else:
             self.trace.add("user.subscribe", k=name, m=method, target=tuple(step["target"]))
 
+    def op_user_sock_conn_subscribe(self, step) -> None:
+        """A connection subscriber on the bare socket that takes a while over the connected=True notification (virtual seconds
+        of work, as an application that greets the console and updates its own state would), and may fail at the end of it."""
+        work = float(step.get("work", 0.0))
+        raises = bool(step.get("raises", False))
+        name = step.get("name", "slowconn")
+
+        async def on_conn(*, connected: bool) -> None:
+            self.trace.add("sub.call", k=name, args=(connected,))
+            if connected and work:
+                await asyncio.sleep(work)
+            if connected and raises:
+                raise RuntimeError(f"connection subscriber {name} fails")
+
+        self._conn_subs = getattr(self, "_conn_subs", [])
+        self._conn_subs.append(on_conn)
+        self.sock.subscribe_on_connection_changed(on_conn)
+
     def op_user_sock_subscribe(self, step) -> None:
         """Extra message subscriber on the bare socket (may raise, may yield)."""
         name = step.get("name", "extra")
